@@ -2862,7 +2862,7 @@ class DESSubheaderManager(SubheaderManager):
 
 class RESSubheaderManager(SubheaderManager):
     item_bytes_required = True
-    subheader_type = DataExtensionHeader
+    subheader_type = ReservedExtensionHeader
 
     @property
     def subheader(self) -> ReservedExtensionHeader:
